@@ -22,7 +22,7 @@ CLAIMS = {
     'C18': ('effect/purity analysis: static-storage inventory with mutation verdicts, external-callee classification, pointer-keyed container and address-comparison lint, ownership-by-value and state-locality rules',
             'Decides absence of shared mutable state and of nondeterminism sources over every library unit, which implies determinism '
             'and race freedom for all call orders and interleavings (assuming a thread-safe allocator/libstdc++). It is a whole-program '
-            'structural argument, not an exploration of schedules.', '4/C18'),
+            'structural argument, not an exploration of schedules. Also: errno is tested only after being cleared; containers received by reference are not consumed; no read of an unwritten token (shared C02.p).', '4/C18'),
     'C04': ('recogniser skeleton extracted from the parser, bounded language equality against the reference grammar, structural rules for error recording/propagation and static rules',
             'Decides, for every token sequence up to the bound (quick 13, thorough 17 tokens), that the real control flow of the parser '
             'accepts it without recording an error iff it is a sentence of the reference grammar - exhaustive within the bound, not '
@@ -37,40 +37,40 @@ CLAIMS = {
     'C15': ('guard/dominance rules over scan(), propositional guard implication, request data-flow',
             'Decides that each error kind is recorded under exactly its condition with the right request name, that a scanner is pushed '
             'only for an existing file not on the active stack (depth bounded by the number of files, so scanning terminates given finite '
-            'files), that the recursion test inspects the whole stack, and that parse/compile return exactly the not-found names.', '4/C15'),
+            'files), that the recursion test inspects the whole stack, and that parse/compile return exactly the not-found names. Also: the main key reaches scan() unchanged and is never embedded in scanned text; requests are collected by error kind (evaluated over the error-kind enumeration).', '4/C15'),
     'C09': ('comparator evaluation over all orderings (strict weak order + reference order), loop/iterator shape and dataflow rules over apply_macros / get_replacement / detector tables',
             'PARTIAL. Decides the tie-break order exactly (finite evaluation of the comparator), the visiting order of priority bins, the '
             'splice, the three cases of body instantiation, the agreement of the kind tables and the leftmost scan. Does not decide that '
-            'a detector matches exactly the derivations of its pattern or the longest match within one macro (LR engine).', '4/C09'),
+            'a detector matches exactly the derivations of its pattern or the longest match within one macro (LR engine). The slot languages of the pattern grammar are compared with the reference grammar for bounded EQUALITY; insertion indices are range-checked for n in {-1,0,slots-1,slots,slots+1}; every constrained literal is compared.', '4/C09'),
     'C10': ('dependency (taint) rule on the renaming expression + loop-counter dataflow',
             'Decides that the new name of a temporary is a function of (its text, the pass counter, per-definition values) only, contains '
             'a non-identifier character, becomes an ID, and that the pass counter identifies the expansion step (one rewrite per pass).', '4/C10'),
     'C11': ('loop-shape rules (bounded counter, mutation confinement, flag discipline) + error forwarding',
             'Decides that every mutation of the token stream is confined to a strictly bounded counted loop with one rewrite per '
             'iteration, for all inputs and macro sets, and that exhaustion is reported and forwarded. Termination of each detect() call '
-            'is assumed.', '4/C11'),
+            'is assumed. The one-rewrite-per-pass and flag clauses are path properties of the CFG (flag-sensitive reachability), the pass counter is as wide as the budget, and the merge of stage errors is unconditional.', '4/C11'),
     'C12': ('data-flow/who-may-reach rules over detector lists, conflict-checked table writes, comparator evaluation of LR container keys',
             'PARTIAL. Decides that a conflict becomes exactly one error at the pattern position, that rejected detectors never reach the '
             'bins, that collection does not stop early, that every table write is conflict-checked and that prefix mode covers all columns. '
-            'Does not decide that conflicts coincide with non-prefix-determinism.', '4/C12'),
+            'Does not decide that conflicts coincide with non-prefix-determinism. Also: the conflict verdict is produced by table generation on every path through the detector\'s constructor; the pattern grammar equals the language (shared C09.h).', '4/C12'),
     'C02': ('allocation-site shape/nullness analysis of the syntax tree (parser + generator), guard/dominance rules for cursors, emptiness, ownership pairing, result dichotomy',
             'PARTIAL. Decides: no NULL syntax-tree pointer is dereferenced (parser on every execution with look-ahead-sensitive '
             'summaries; generator on every error-free tree shape), cursors/indices are guarded, back()/[0] only on provably '
             'non-empty sequences (with reasoned, re-verified exceptions), allocations are paired with releases on all paths, the '
             'result is correct XOR has errors, error records are well formed. Does not decide recursion-depth/work bounds, '
-            'bad_alloc, libstdc++/flex internals or the LR driver stack discipline.', '4/C02'),
+            'bad_alloc, libstdc++/flex internals or the LR driver stack discipline. Added later: no use of a reference/iterator into a sequence container after an invalidating operation; a token filled in by yylex is read only after a successful call; conversions do not throw out of compile(); macro work bounded by the pass budget (shared C11.a); the parser\'s recursion follows nesting, not length (five sequence recursions are a recorded known finding, D13).', '4/C02'),
     'C08': ('pairing / who-may-write rules over the two breakpoint tables; constant agreement across units',
             'Decides that both tables are updated together with the index of the emitted site and the current location, that '
             'removal is exact, that nobody else writes the tables or creates sites, that the hidden file is excluded by the '
             'same constant parse() uses, and that locations are copied pairwise from token positions: inverse-ness for all '
-            'compiled programs by induction over emissions.', '4/C08'),
+            'compiled programs by induction over emissions. Also: tokens created after scanning take file and line from one token; a location whose site list became empty is erased; removal is not done on a copy; the location is looked up before its entry is erased.', '4/C08'),
     'C16': ('who-may-write + dominance (registration after body), dominance chain and name-privacy of the LOOP counter',
             'Decides acyclicity of the call graph of every accepted source structurally (a routine is entered into the table only '
             'after its body and RET were generated; EXEC only after a successful lookup) and that the LOOP counter is a private, '
             'unique register written only by the decrement between head and back-jump. Halting follows by induction, not by running.', '4/C16'),
     'C07': ('emission-discipline rules (dominance, call-site inventories, constant agreement)',
             'PARTIAL. Decides the named necessary conditions of faithful stepping (listed in DESIGN.md 4/C07); it does not decide '
-            'the exact stop sequence of arbitrary programs, which depends on run-time paths.', '4/C07'),
+            'the exact stop sequence of arbitrary programs, which depends on run-time paths. Also: loop labels are set at the next emission position, only user marks at the mark position; the variable view walks the whole stack map for every frame that has a register.', '4/C07'),
     'C03': ('generator invariants: dominance on the CFG, register-provenance lattice, single-definition origin tracking; VM frame roles from handler summaries',
             'Decides the four well-formedness lemmas (root frame/HALT, jumps backpatched to labels set exactly once, every '
             'register operand from the current routine allocator and frame size recorded after the last allocation with one '
